@@ -525,9 +525,10 @@ def judge_project(ctx, case, res):
             ok = judge_view(ctx, case, res, key, e, st, rec, exec_of) and ok
     if sandboxed:
         ok = judge_probes(ctx, case, res, rec) and ok
-    if case.get("weak_probe") and res.get("weak_rc") == 0 and res.get("weak_new_dirs"):
-        ctx.violation("changing only the weak variable DW (%r -> %r) created new variants %r" %
-                      (case["defines"]["DW"], case["weak_second"], res["weak_new_dirs"]), rec, "weak-variable-changes-variant")
+    if case.get("weak_probe") and res.get("weak_rc") == 0 and (res.get("weak_new_dirs") or res.get("weak_seen_after") != case["defines"]["DW"]):
+        ctx.violation("changing only the weak variable DW (%r -> %r) changed the variant: new directories %r, package step run again (DW=%r)" %
+                      (case["defines"]["DW"], case["weak_second"], res["weak_new_dirs"], res.get("weak_seen_after")), rec,
+                      "weak-variable-changes-variant")
         ok = False
     if case["root"]["fingerprint"]:
         fp = res.get("fp_env")
